@@ -15,6 +15,8 @@ import builtins
 import importlib
 import importlib.util
 import io
+import itertools
+import keyword
 import logging
 import os
 import pkgutil
@@ -30,18 +32,31 @@ from common import Case, sx
 
 PROP = "C17"
 RULE = ("every top-level module name of pkgutil.iter_modules() and sys.builtin_module_names (thorough: all; quick: all "
-        "allow-listed + near-miss variants of allow-listed names (prefix, suffix, parent, child) + pyscript module/app "
-        "names + a seeded sample) and sampled submodules x {import a, import a as x, import m, a, from a import b, "
-        "from a import b as c, from a import *, from a import <missing>} x {direct, exec, nested exec} x allow_all_imports "
-        "in {False, True} x {script context, app context}; relative forms; stubs forms; names shadowing files under "
-        "pyscript/modules and pyscript/apps; every name of dir(builtins) plus dunder/own names x {direct, exec, eval, "
-        "inside a function, user-shadowed}.  Non-trivial = every case (each is a distinct statement/configuration).")
+        "allow-listed + near-miss variants of allow-listed names (prefix, suffix, parent, child, a.b.c below an allowed a or "
+        "a.b, other case) + pyscript module/app names + a seeded sample) and sampled submodules x {import a, import a as x, "
+        "import m, a, from a import b, from a import b as c, from a import *, from a import <missing>} x {direct, exec, nested "
+        "exec} x allow_all_imports in {False, True} x {script context, app context}; multi-name imports with `as` aliases in "
+        "EVERY order of three names; relative forms `from .[.[.]] import m` / `from .[.[.]]m import x|*` at levels 1-3 x ten "
+        "importing contexts (plain script, app package as the loader and as the importer name it, module file of an app, "
+        "sub-package, file of a sub-package, modules package, file of a modules package, single module file, scripts "
+        "package) x targets inside / outside / above the package, allow-listed and refused bare names; stubs forms with and "
+        "without stub files on disk (modules/stubs/, modules/stubs.py, apps/app1/stubs.py); every form at module level, in a "
+        "called function, in a class body, under try/except ImportError, through eval('exec(...)'); names shadowing files "
+        "under pyscript/modules and pyscript/apps; every name of dir(builtins) plus dunder/own names plus other-case and "
+        "underscore variants of the excluded builtins x {direct, exec, eval, inside a function, global-declared, nested "
+        "function, comprehension, class body, user-shadowed, globals()[x], locals()[x], through the name __builtins__} x "
+        "allow_all_imports for the named ones.  Non-trivial = every case (each is a distinct statement/configuration).")
 ASSUMPTIONS = [
     "sys.modules / importlib.import_module are the host's import system; the shim returns the module Python would "
     "return for the safe list and a recorded stand-in otherwise",
     "a module's importable attributes are the keys of its __dict__ (no module-level __getattr__ in generated from-imports)",
-    "relative imports are generated with one leading dot only; module names are ASCII identifiers joined by dots",
+    "module names are ASCII identifiers joined by dots; a context is described by (global_ctx.name, rel_import_path) as "
+    "the loader (glob_read_files) or module_import would create it",
     "a fresh GlobalContextMgr.contexts per case (no module loaded earlier by another script)",
+    "a relative import whose file does not exist falls back to the BARE module name (allow test, then host import): the "
+    "oracle accepts an ImportError without bindings or exactly that fallback, but never a binding for a refused name",
+    "the property is about plain names: attribute paths that reach the host's builtins (json.__builtins__, a lambda's "
+    "__globals__) are counted in the coverage (`attribute_paths`), not judged",
 ]
 TRUSTED = ["tools/extract.py + tools/extractors/C17.py (ALLOWED_IMPORTS, BUILTIN_EXCLUDE, BUILTIN_AST_FUNCS_FACTORY keys)",
            "harness/run_C17.py (import shim, object-identity canonicalisation, oracle)", "harness/interp_env.py (stub hass)"]
@@ -56,9 +71,29 @@ PYS_FILES = {
     "modules/both/__init__.py": "modules.both", "modules/both.py": "modules.both",
     "apps/app1/__init__.py": "apps.app1", "apps/app1/helper.py": "apps.app1.helper",
     "apps/shadow.py": "apps.shadow", "modules/shadow.py": "modules.shadow", "apps/json.py": "apps.json",
-    "apps/app1/sub/__init__.py": "apps.app1.sub",
+    "apps/app1/sub/__init__.py": "apps.app1.sub", "apps/app1/sub/deep.py": "apps.app1.sub.deep",
+    "apps/app1/sub/helper.py": "apps.app1.sub.helper", "apps/app2/__init__.py": "apps.app2",
+    "modules/pkg/sub2.py": "modules.pkg.sub2", "scripts/sub/__init__.py": "scripts.sub", "scripts/sub/util.py": "scripts.sub.util",
 }
-PYS_NAMES = ["os", "math", "mymod", "pkg", "pkg.sub", "both", "shadow", "json", "app1", "app1.helper", "helper", "sub", "nosuch"]
+# files that exist only in some cases (payload["extra_files"]): stub modules on disk
+EXTRA_FILES = {"modules/stubs/__init__.py": "modules.stubs", "modules/stubs/a.py": "modules.stubs.a",
+               "modules/stubs.py": "modules.stubs", "apps/app1/stubs.py": "apps.app1.stubs"}
+STUB_SETS = [[], ["modules/stubs/__init__.py", "modules/stubs/a.py"], ["modules/stubs.py"], ["apps/app1/stubs.py"]]
+# importing contexts: key -> (global_ctx.name, rel_import_path) as the loader / module_import create them
+CTXS = {
+    "script": ("file.t", None),
+    "app": ("apps.app1", "apps/app1"),                       # package __init__ loaded by an import
+    "app_init": ("apps.app1", "apps/app1/__init__"),         # the same file as glob_read_files names it
+    "app_file": ("apps.app1.helper", "apps/app1"),           # module file of the app (loaded by `from . import helper`)
+    "app_sub": ("apps.app1.sub", "apps/app1/sub"),           # sub-package __init__
+    "app_sub_file": ("apps.app1.sub.deep", "apps/app1/sub"),
+    "mod_pkg": ("modules.pkg", "modules/pkg"),
+    "mod_pkg_file": ("modules.pkg.sub", "modules/pkg"),
+    "mod_file": ("modules.mymod", None),                     # single-file module: no parent package
+    "scripts_pkg": ("scripts.sub", "scripts/sub/__init__"),
+}
+PYS_NAMES = ["os", "math", "mymod", "pkg", "pkg.sub", "both", "shadow", "json", "app1", "app1.helper", "helper", "sub", "nosuch",
+             "pkg.sub2", "pkg.sub.deeper", "app1.sub", "app1.sub.deep", "app1.sub.nosuch", "app2", "pkg.nosuch.x"]
 NAMED = ["open", "compile", "input", "breakpoint", "memoryview", "print"]
 
 _S = {}
@@ -83,7 +118,7 @@ def _setup():
         except Exception:  # pylint: disable=broad-except
             pass
     tmp = tempfile.mkdtemp(prefix="c17_")
-    for rel, _ in PYS_FILES.items():
+    for rel in PYS_FILES:
         p = os.path.join(tmp, "pyscript", rel)
         os.makedirs(os.path.dirname(p), exist_ok=True)
         with open(p, "w", encoding="utf-8") as f:
@@ -161,31 +196,69 @@ class _Shim:
 def stmt_text(st):
     if st[0] == "import":
         return "import " + ", ".join(n if a is None else f"{n} as {a}" for n, a in st[1])
-    _, mod, rel, names = st
-    return f"from {'.' if rel else ''}{mod or ''} import " + ", ".join(n if a is None else f"{n} as {a}" for n, a in names)
+    _, mod, level, names = st
+    return f"from {'.' * int(level)}{mod or ''} import " + ", ".join(n if a is None else f"{n} as {a}" for n, a in names)
 
 
-def wrap(src, depth):
-    for _ in range(depth):
-        src = f"exec({src!r})"
+def stmt_keys(st):
+    return [(a or n) for n, a in (st[1] if st[0] == "import" else st[3])]
+
+
+def wrap(src, wraps, st=None):
+    """wraps: outermost first, e.g. ["exec", "exec"] or ["func"]"""
+    for w in reversed(wraps):
+        if w == "exec":
+            src = f"exec({src!r})"
+        elif w == "evalexec":
+            src = f"eval({('exec(' + repr(src) + ')')!r})"
+        elif w == "try":
+            src = f"try:\n    {src}\nexcept ImportError as __e:\n    __caught = __e"
+        elif w == "cls":
+            src = f"class __C:\n    {src}"
+        elif w == "func":
+            keys = [k for k in dict.fromkeys(stmt_keys(st)) if re.fullmatch(r"[A-Za-z_][A-Za-z0-9_]*", k)]
+            decl = f"    global {', '.join(keys)}\n" if keys else ""
+            src = f"def __f():\n{decl}    {src}\n__f()"
+        else:
+            raise ValueError(w)
     return src
+
+
+def wraps_ok(st, wraps):
+    """a function / class body cannot take `import *` (CPython: SyntaxError) and a dotted key cannot be declared global"""
+    if "func" in wraps and any(k == "*" or "." in k for k in stmt_keys(st)):
+        return False
+    if "cls" in wraps and (any(k == "*" for k in stmt_keys(st)) or len(stmt_keys(st)) != 1):
+        return False                 # the namespace of a class body that raises is discarded: partial bindings are unobservable
+    return True
 
 
 def forms_for(name, pick_attr):
     b = pick_attr(name)
     return [("import", [(name, None)]), ("import", [(name, "xx")]), ("import", [("math", None), (name, None)]),
-            ("from", name, False, [(b, None)]), ("from", name, False, [(b, "cc")]), ("from", name, False, [("*", None)]),
-            ("from", name, False, [("zz_missing", None)])]
+            ("from", name, 0, [(b, None)]), ("from", name, 0, [(b, "cc")]), ("from", name, 0, [("*", None)]),
+            ("from", name, 0, [("zz_missing", None)]),
+            # the alias is a boundary value itself: an allow-listed module name, the imported name, a builtin
+            ("import", [(name, "math")]), ("from", name, 0, [(b, "json")])]
+
+
+def alias_forms(name, b):
+    return [("import", [(name, "json")]), ("import", [(name, "mymod")]), ("import", [(name, "stubs")]),
+            ("import", [(name, "open")]), ("import", [(name, name.split(".")[0])]), ("import", [("json", name.replace(".", "_"))]),
+            ("from", name, 0, [(b, "math")]), ("from", name, 0, [(b, "print")]), ("from", name, 0, [(b, b)])]
 
 
 def near_miss(allowed):
     out = set()
     for a in allowed:
-        out |= {a + "x", a + "2", "x" + a, a + ".evil", a + "." + a, a.upper(), a[:-1], "_" + a}
+        out |= {a + "x", a + "2", "x" + a, a + ".evil", a + "." + a, a.upper(), a.capitalize(), a[:-1], "_" + a, a + ".a.b",
+                a + "_", a + ".__init__"}
         if "." in a:
             out |= {a.split(".")[0], a.rsplit(".", 1)[0], a.replace(".", "_")}
     out |= {"os", "os.path", "sys", "subprocess", "builtins", "importlib", "json.decoder", "json.tool", "re2", "maths",
-            "homeassistant", "homeassistant.core", "homeassistant.constants", "stubs", "stubsx", "stubs2.a", "pathlib", "socket"}
+            "homeassistant", "homeassistant.core", "homeassistant.constants", "stubs", "stubsx", "stubs2.a", "pathlib", "socket",
+            "homeassistant.helpers.template", "os.path.join", "json.decoder.JSONDecoder", "xml.etree.ElementTree", "email.mime.text",
+            "collections.abc.x", "datetime.datetime", "math.pi", "Math", "JSON", "Os"}
     return sorted(n for n in out - set(allowed) if n and re.fullmatch(r"[A-Za-z_][A-Za-z0-9_]*(\.[A-Za-z_][A-Za-z0-9_]*)*", n))
 
 
@@ -224,59 +297,124 @@ def gen_cases(rng, tier, search):
                     depths = (0, 1, 2) if special else ((0, 1) if rng.random() < 0.25 else (0,))
                     for d in depths:
                         cases.append(mk_imp(allow, ctx, d, st))
-    # relative and stubs forms
-    rel_forms = [("from", None, True, [("helper", None)]), ("from", None, True, [("helper", "h")]), ("from", None, True, [("nosuch", None)]),
-                 ("from", None, True, [("sub", None), ("helper", None)]), ("from", "helper", True, [("x", None)]),
-                 ("from", "helper", True, [("*", None)]), ("from", "os", True, [("x", None)]), ("from", "math", True, [("pi", None)]),
-                 ("from", "nosuch", True, [("x", None)]), ("from", "sub", True, [("f", "g")]),
-                 ("from", "stubs", False, [("x", None)]), ("from", "stubs.a.b", False, [("y", None), ("z", None)]),
-                 ("from", "stubs", False, [("x", "y")]), ("from", "stubs.q", False, [("x", None), ("w", "y")]),
-                 ("from", "stubs", True, [("x", None)]), ("from", "stubs", False, [("*", None)]),
-                 ("from", "stubsx", False, [("x", None)]), ("import", [("stubs", None)]), ("import", [("stubs.a", "s")]),
-                 ("import", [("math", None), ("json", "j"), ("os", None), ("re", None)]),
-                 ("from", "math", False, [("pi", None), ("e", "ee"), ("zz_missing", None), ("tau", None)]),
-                 ("from", "json", False, [("tool", None)]), ("from", "json", False, [("decoder", None)]),
-                 ("from", "xml", False, [("dom", None)]), ("from", "email", False, [("mime", "mm")])]
-    for st in rel_forms:
+                    # the same statement in a called function, a class body, under try/except ImportError and
+                    # through eval("exec(...)")
+                    if ctx == "script" and (special or rng.random() < 0.08):
+                        for w in (["func"], ["cls"], ["try"], ["evalexec"]):
+                            if wraps_ok(st, w):
+                                cases.append(mk_imp(allow, ctx, w, st))
+        if special:
+            for st in alias_forms(name, pick_attr(name)):
+                for allow in (False, True):
+                    cases.append(mk_imp(allow, "script", 0, st))
+            # multi-name imports with aliases, every order of the three names
+            trio = [("math", "m"), (name, "xx"), ("json", None)]
+            for perm in itertools.permutations(trio):
+                for allow in (False, True):
+                    cases.append(mk_imp(allow, "script", 0, ("import", list(perm))))
+            for allow in (False, True):
+                cases.append(mk_imp(allow, "script", 0, ("import", [(name, None), (name, "yy")])))
+                cases.append(mk_imp(allow, "app", 0, ("import", [(name, "a1"), ("os", "o"), (name, "a2")])))
+    # stubs forms, multi-name forms, from-imports of submodules
+    misc_forms = [("from", "stubsx", 0, [("x", None)]),
+                  ("import", [("math", None), ("json", "j"), ("os", None), ("re", None)]),
+                  ("from", "math", 0, [("pi", None), ("e", "ee"), ("zz_missing", None), ("tau", None)]),
+                  ("from", "json", 0, [("tool", None)]), ("from", "json", 0, [("decoder", None)]),
+                  ("from", "xml", 0, [("dom", None)]), ("from", "email", 0, [("mime", "mm")])]
+    for st in misc_forms:
         for allow in (False, True):
             for ctx in ("script", "app"):
                 for d in (0, 1):
                     cases.append(mk_imp(allow, ctx, d, st))
+    stub_forms = [("from", "stubs", 0, [("x", None)]), ("from", "stubs.a.b", 0, [("y", None), ("z", None)]),
+                  ("from", "stubs", 0, [("x", "y")]), ("from", "stubs.q", 0, [("x", None), ("w", "y")]),
+                  ("from", "stubs", 1, [("x", None)]), ("from", "stubs.a", 2, [("x", None)]), ("from", "stubs", 0, [("*", None)]),
+                  ("from", "stubs.a", 0, [("x", None)]), ("from", "stubs.a", 0, [("*", None)]),
+                  ("import", [("stubs", None)]), ("import", [("stubs.a", "s")]), ("import", [("stubs", "st"), ("math", None)]),
+                  ("from", None, 1, [("stubs", None)])]
+    for st in stub_forms:
+        for extra in STUB_SETS:
+            for allow in (False, True):
+                for ctx in ("script", "app", "app_sub"):
+                    cases.append(mk_imp(allow, ctx, 0, st, extra=extra))
+                cases.append(mk_imp(allow, "script", 1, st, extra=extra))
+                if wraps_ok(st, ["try"]):
+                    cases.append(mk_imp(allow, "app", ["try"], st, extra=extra))
+    # relative imports: levels 1-3 x every importing context x targets inside / outside / above the package
+    rel_targets = ["helper", "sub", "sub.deep", "deep", "nosuch", "os", "math", "json", "pkg", "sub2", "util", "app2", "app1",
+                   "mymod", "sub.nosuch", "homeassistant.const"]
+    dot_names = [[("helper", None)], [("helper", "h")], [("nosuch", None)], [("sub", None), ("helper", None)],
+                 [("deep", "d"), ("helper", None), ("nosuch", None)], [("app2", None)], [("sub2", None), ("sub", "s")],
+                 [("util", None)], [("math", None)], [("os", None)]]
+    for level in (1, 2, 3):
+        for ctx in CTXS:
+            for allow in (False, True):
+                for t in rel_targets:
+                    forms = [("from", t, level, [("x", None)])]
+                    if t in ("helper", "sub", "os", "math", "nosuch", "sub2"):
+                        forms += [("from", t, level, [("*", None)]), ("from", t, level, [("f", "g"), ("zz_missing", None)])]
+                    for st in forms:
+                        cases.append(mk_imp(allow, ctx, 0, st))
+                for names_ in dot_names:
+                    cases.append(mk_imp(allow, ctx, 0, ("from", None, level, names_)))
+            # a sample through exec / function / class / try
+            for t in ("helper", "os", "nosuch"):
+                st = ("from", t, level, [("x", None)])
+                for w in (1, ["func"], ["cls"], ["try"], ["evalexec"]):
+                    cases.append(mk_imp(False, ctx, w, st))
     # plain-name lookup
+    variants = set()
+    for x in NAMED + ["eval", "exec", "globals", "locals", "abs", "len"]:
+        variants |= {x.upper(), x.capitalize(), x[0] + x[1:].upper(), x + "_", "_" + x, "__" + x + "__", x + "2", x[:-1]}
+    variants |= {"MemoryView", "memoryView", "BreakPoint", "breakPoint", "_", "__", "___", "_x", "__x__"}
     nm = sorted(set(dir(builtins)) | {"__import__", "__builtins__", "__loader__", "__spec__", "_", "eval", "exec", "globals",
-                                       "locals", "print", "log", "task", "nosuchname", "pyscript", "state"})
+                                       "locals", "print", "log", "task", "nosuchname", "pyscript", "state"} | variants)
     for x in nm:
-        if not re.fullmatch(r"[A-Za-z_][A-Za-z0-9_]*", x) or x in ("None", "True", "False", "__debug__"):
+        if not re.fullmatch(r"[A-Za-z_][A-Za-z0-9_]*", x) or x in ("None", "True", "False", "__debug__") or keyword.iskeyword(x):
             continue
-        for mode in ("direct", "exec", "eval", "func", "user", "gfunc", "nested", "comp", "cls"):
+        for mode in ("direct", "exec", "eval", "func", "user", "gfunc", "nested", "comp", "cls", "globals", "locals", "bi_attr",
+                     "bi_item", "try"):
             cases.append(Case({"kind": "name", "name": x, "mode": mode}, None, tags=("name", "name-" + mode)))
+        if x in NAMED or x in variants or x.startswith("_"):
+            # builtin lookup does not depend on allow_all_imports – run the named ones under both settings
+            for mode in ("direct", "exec", "eval", "func", "cls"):
+                cases.append(Case({"kind": "name", "name": x, "mode": mode, "allow": True}, None,
+                                  tags=("name", "name-" + mode, "allow")))
         if x in NAMED:
             # natively compiled code (lambda) has the host's builtins – documented; recorded as finding C17-F2
             cases.append(Case({"kind": "name", "name": x, "mode": "lambda"}, None, tags=("name", "name-lambda")))
     for x in NAMED:
         cases.append(Case({"kind": "call", "name": x}, None, tags=("call",)))
+    # attribute paths to the host's builtins: outside the property ("as plain names"), counted only
+    for src in ("import json\n__r = json.__builtins__", "import json\n__r = getattr(json, '__builtins__')",
+                "__r = (lambda: 0).__globals__", "__r = (lambda: 0).__builtins__", "__r = print.__self__",
+                "import math\n__r = getattr(math, '__builtins__', None)", "__r = [].__class__.__base__.__subclasses__()"):
+        cases.append(Case({"kind": "attrpath", "src": src}, None, tags=("attrpath",)))
     return cases
 
 
-def mk_imp(allow, ctx, depth, st):
+def mk_imp(allow, ctx, depth, st, extra=()):
     st = list(st)
-    return Case({"kind": "imp", "allow": allow, "ctx": ctx, "depth": depth, "stmt": st, "src": wrap(stmt_text(st), depth)},
-                None, tags=("imp", "allow" if allow else "restricted", ctx, f"depth{depth}", st[0] if st[0] == "import" else
-                            ("from-rel" if st[2] else "from")))
+    if st[0] == "from":
+        st[2] = int(st[2])
+    wraps = ["exec"] * depth if isinstance(depth, int) else list(depth)
+    return Case({"kind": "imp", "allow": allow, "ctx": ctx, "wrap": wraps, "stmt": st, "src": wrap(stmt_text(st), wraps, st),
+                 "extra_files": list(extra)},
+                None, tags=("imp", "allow" if allow else "restricted", ctx, "wrap:" + ("+".join(wraps) or "direct"),
+                            st[0] if st[0] == "import" else (f"from-rel{st[2]}" if st[2] else "from")) +
+                (("stubfiles",) if extra else ()))
 
 
 # ------------------------------------------------------------------ running the real code
 ERR_KIND = [("not allowed", "notAllowed"), ("No module named", "notFound"), ("not supported for stubs", "stubsAs"),
-            ("no known parent package", "relNoParent"), ("' not found", "relNotFound")]
+            ("no known parent package", "relNoParent"), ("above parent package", "relAbove"), ("' not found", "relNotFound")]
 
 
 def _new_ctx(kind):
     S = _S
     S["GCM"].contexts.clear()
-    if kind == "app":
-        g = S["GC"]("apps.app1", global_sym_table={}, manager=S["GCM"], rel_import_path="apps/app1")
-    else:
-        g = S["GC"]("file.t", global_sym_table={}, manager=S["GCM"])
+    name, rel = CTXS[kind]
+    g = S["GC"](name, global_sym_table={}, manager=S["GCM"], rel_import_path=rel)
     a = S["E"].AstEval(g.get_name(), global_ctx=g)
     S["Function"].install_ast_funcs(a)
     return g, a
@@ -293,8 +431,15 @@ async def _exec(kind, src):
     return g, a, exc
 
 
-def _tag_of(obj, registry):
-    return registry.get(id(obj))
+def _pys_map(p):
+    m = dict(PYS_FILES)
+    for rel in p.get("extra_files") or []:
+        m[rel] = EXTRA_FILES[rel]
+    return m
+
+
+def _wraps(p):
+    return p["wrap"] if "wrap" in p else ["exec"] * p.get("depth", 0)
 
 
 async def _run_imp(c):
@@ -302,17 +447,54 @@ async def _run_imp(c):
     p = c.payload
     S["IE"].set_allow_all_imports(p["allow"])
     st = p["stmt"]
+    if st[0] == "from":
+        st[2] = int(st[2])
+    wraps = _wraps(p)
+    pys = _pys_map(p)
+    extra_paths = []
+    for rel in p.get("extra_files") or []:
+        path = os.path.join(S["tmp"], "pyscript", rel)
+        os.makedirs(os.path.dirname(path), exist_ok=True)
+        with open(path, "w", encoding="utf-8") as f:
+            f.write(MOD_SRC)
+        extra_paths.append(path)
     del S["calls"][:]
-    with patch.object(S["E"], "importlib", _Shim(S)):
-        g, a, exc = await _exec(p["ctx"], p["src"])
+    try:
+        with patch.object(S["E"], "importlib", _Shim(S)):
+            g, a, exc = await _exec(p["ctx"], p["src"])
+    finally:
+        for path in extra_paths:
+            os.unlink(path)
+        if extra_paths and os.path.isdir(os.path.join(S["tmp"], "pyscript", "modules", "stubs")):
+            shutil.rmtree(os.path.join(S["tmp"], "pyscript", "modules", "stubs"), ignore_errors=True)
     calls = list(S["calls"])
+    # ---- where the statement put its bindings
+    gs = dict(g.global_sym_table)
+    if "try" in wraps and exc is None and isinstance(gs.get("__caught"), BaseException):
+        exc = gs["__caught"]                       # what the statement raised before `except ImportError` took it
+    for k in ("__caught", "__e", "__f"):
+        gs.pop(k, None)
+    if "cls" in wraps:
+        cls = gs.pop("__C", None)
+        if type(cls).__name__ == "EvalLocalVar":            # how the interpreter keeps a name that a closure may share
+            cls = cls.get() if cls.is_defined() else None
+        gs = {k: v for k, v in (cls.__dict__.items() if cls is not None else [])
+              if k not in ("__module__", "__dict__", "__weakref__", "__doc__", "__qualname__", "__firstlineno__",
+                           "__static_attributes__", "__init__evalfunc_wrap__")}
     # ---- registry of module objects by identity
     registry = {}
     pys_attrs = {}
-    for rel, ctxname in PYS_FILES.items():
-        gc = S["GCM"].get(ctxname)
-        if gc is not None and getattr(gc, "module", None) is not None and os.path.normpath(gc.file_path).endswith(os.path.normpath(rel)):
+    objs = {}
+    base = os.path.join(S["tmp"], "pyscript")
+    for gc in list(S["GCM"].contexts.values()):
+        # by FILE, not by context name: module_import names the context of a sibling imported from a module file
+        # `<importer>.<name>`, e.g. apps.app1.helper.sub for apps/app1/sub/__init__.py
+        if getattr(gc, "module", None) is None or not getattr(gc, "file_path", None):
+            continue
+        rel = os.path.relpath(gc.file_path, base).replace(os.sep, "/")
+        if rel in pys:
             registry[id(gc.module)] = "pys:" + rel
+            objs[id(gc.module)] = gc.module
             pys_attrs[rel] = list(gc.module.__dict__.keys())
     mods = [n for n, _ in st[1]] if st[0] == "import" else ([st[1]] if st[1] else [])
     host = []
@@ -322,12 +504,14 @@ async def _run_imp(c):
             registry.setdefault(id(m), "host:" + n)
             host.append([n, "host:" + n, list(_dict(m).keys()) if st[0] == "from" else []])
     # ---- canonical bindings
-    gs = g.global_sym_table
     binds = []
     aliases = st[1] if st[0] == "import" else st[3]
     src_name = {}
     for n, asn in aliases:
         src_name.setdefault(asn or n, n)
+    for mid, tag in registry.items():
+        if mid not in objs:
+            objs[mid] = host_expect(tag[5:])[1]
     for k, v in gs.items():
         if k.startswith("__") and k in ("__name__", "__doc__", "__package__", "__loader__", "__spec__", "__builtins__"):
             continue
@@ -337,7 +521,7 @@ async def _run_imp(c):
         found = None
         an = src_name.get(k, k)
         for mid, tag in registry.items():
-            mod = _obj_by_id(mid, S, registry)
+            mod = objs[mid]
             if mod is not None and an in _dict(mod) and _dict(mod)[an] is v:
                 found = [k, "a", tag, an]
                 break
@@ -358,11 +542,11 @@ async def _run_imp(c):
     default_attrs = S.setdefault("pys_default_attrs", None)
     if default_attrs is None and pys_attrs:
         S["pys_default_attrs"] = default_attrs = next(iter(pys_attrs.values()))
-    files = [[rel, "pys:" + rel, pys_attrs.get(rel) or default_attrs or ["x", "_y", "f"]] for rel in PYS_FILES]
+    files = [[rel, "pys:" + rel, pys_attrs.get(rel) or default_attrs or ["x", "_y", "f"]] for rel in pys]
     mstmt = (["import"] + [[n, a or "-"] for n, a in st[1]]) if st[0] == "import" else \
-        (["from", st[1] or "-", 1 if st[2] else 0] + [[n, a or "-"] for n, a in st[3]])
-    c.line = "C17 " + sx(["imp", p["allow"], "apps/app1" if p["ctx"] == "app" else "-", ["files"] + files,
-                          ["host"] + host, p["depth"], mstmt])
+        (["from", st[1] or "-", st[2]] + [[n, a or "-"] for n, a in st[3]])
+    cname, crel = CTXS[p["ctx"]]
+    c.line = "C17 " + sx(["imp", p["allow"], crel or "-", cname, ["files"] + files, ["host"] + host, ["w"] + wraps, mstmt])
     p["_obs"] = {"exc": type(exc).__name__ if exc else None, "msg": str(exc)[:120] if exc else None, "kind": kind,
                  "binds": binds, "calls": calls, "loaded": sorted(registry.values())}
 
@@ -372,10 +556,10 @@ def _dict(m):
     return d if isinstance(d, dict) else {}
 
 
-def _obj_by_id(mid, S, registry):
+def _obj_by_id(mid, S, registry, pys=None):
     tag = registry[mid]
     if tag.startswith("pys:"):
-        gc = S["GCM"].get(PYS_FILES[tag[4:]])
+        gc = S["GCM"].get((pys or PYS_FILES)[tag[4:]])
         return gc.module if gc is not None else None
     ok, m = host_expect(tag[5:])
     return m if ok else None
@@ -385,7 +569,7 @@ async def _run_name(c):
     S = _S
     p = c.payload
     x, mode = p["name"], p["mode"]
-    S["IE"].set_allow_all_imports(False)
+    S["IE"].set_allow_all_imports(bool(p.get("allow", False)))
     src = {"direct": f"__r = {x}", "exec": f"exec({('__r = ' + x)!r})", "eval": f"__r = eval({x!r})",
            "func": f"def __f():\n    return {x}\n__r = __f()", "user": f"{x} = 12345\n__r = {x}",
            # every other way a plain name can be looked up: a function that declares it global, a nested function,
@@ -394,13 +578,21 @@ async def _run_name(c):
            "nested": f"def __f():\n    def __g():\n        return {x}\n    return __g()\n__r = __f()",
            "comp": f"__r = [{x} for __i in [1]][0]",
            "cls": f"class __C:\n    v = {x}\n__r = __C.v",
-           "lambda": f"__r = (lambda: {x})()"}[mode]
+           "lambda": f"__r = (lambda: {x})()",
+           # through the namespaces pyscript hands out, and through the name of the builtins module itself
+           "globals": f"__r = globals()[{x!r}]",
+           "locals": f"def __f():\n    return locals()[{x!r}]\n__r = __f()",
+           "bi_attr": f"__r = getattr(__builtins__, {x!r})",
+           "bi_item": f"__r = __builtins__[{x!r}]",
+           "try": f"try:\n    __r = {x}\nexcept NameError:\n    __r = '<NameError>'"}[mode]
     g, a, exc = await _exec("script", src)
     if exc is not None:
         res = "evalName" if isinstance(exc, NameError) else "exc:" + type(exc).__name__
     else:
         v = g.global_sym_table.get("__r", None)
-        if mode == "user" and v == 12345:
+        if mode == "try" and isinstance(v, str) and v == "<NameError>":
+            res = "evalName"
+        elif mode == "user" and v == 12345:
             res = "user"
         elif hasattr(builtins, x) and v is getattr(builtins, x):
             res = "host"
@@ -412,14 +604,33 @@ async def _run_name(c):
             res = "other:" + type(v).__name__
     c.impl = res
     func = x in S["Function"].functions or x in S["Function"].ast_functions
-    if mode == "lambda":
-        c.line = None
+    if mode in ("lambda", "globals", "locals", "bi_attr", "bi_item"):
+        c.line = None                     # judged by the oracle only: these do not go through ast_name's builtin branch
     elif mode == "gfunc":
         c.line = "C17 " + sx(["nameg", x, False])
     else:
         c.line = "C17 " + sx(["name", x, mode == "user", hasattr(builtins, x), func])
     p["_obs"] = {"res": res, "is_host": bool(exc is None and hasattr(builtins, x)
                                             and g.global_sym_table.get("__r") is getattr(builtins, x))}
+
+
+async def _run_attrpath(c):
+    """does this attribute path hand out the host's builtins?  Outside the property (plain names) – counted only."""
+    S = _S
+    S["IE"].set_allow_all_imports(False)
+    g, a, exc = await _exec("script", c.payload["src"])
+    v = g.global_sym_table.get("__r") if exc is None else None
+    reach = False
+    try:
+        if isinstance(v, dict):
+            reach = v.get("open") is builtins.open or (isinstance(v.get("__builtins__"), dict) and v["__builtins__"].get("open") is builtins.open) \
+                or getattr(v.get("__builtins__"), "open", None) is builtins.open
+        elif v is not None:
+            reach = getattr(v, "open", None) is builtins.open
+    except Exception:  # pylint: disable=broad-except
+        reach = False
+    c.impl = None
+    c.payload["_obs"] = {"exc": type(exc).__name__ if exc else None, "reaches_host_builtins": bool(reach)}
 
 
 async def _run_call(c):
@@ -480,28 +691,136 @@ def run_impl(cases):
                 await _run_imp(c)
             elif k == "name":
                 await _run_name(c)
+            elif k == "attrpath":
+                await _run_attrpath(c)
             else:
                 await _run_call(c)
     loop.run_until_complete(go())
 
 
 # ------------------------------------------------------------------ the property oracle
-def _pys_visible(name, ctx):
-    S = _S
-    base = os.path.join(S["tmp"], "pyscript")
+def _in_app(ctx):
+    rel = CTXS[ctx][1]
+    return rel is not None and rel.startswith("apps/")
+
+
+def _pys_visible(name, ctx, files):
+    """the pyscript module file an absolute import of `name` from context `ctx` denotes (apps/ only from inside an app)"""
     path = name.replace(".", "/")
-    cands = ([f"apps/{path}/__init__.py", f"apps/{path}.py"] if ctx == "app" else []) + \
+    cands = ([f"apps/{path}/__init__.py", f"apps/{path}.py"] if _in_app(ctx) else []) + \
         [f"modules/{path}/__init__.py", f"modules/{path}.py"]
     for cnd in cands:
-        if os.path.isfile(os.path.join(base, cnd)):
+        if cnd in files:
             return cnd
     return None
+
+
+def _rel_expect(ctx, level, mod, files):
+    """Python's meaning of `from <level dots><mod>`: "noparent" | "above" | ("file", path) | "missing".  The package of a
+    context is the directory it lives in; the top-level packages are apps/<app>, modules/<pkg>, scripts/<dir>."""
+    rel = CTXS[ctx][1]
+    if rel is None:
+        return "noparent"
+    parts = (rel[:-len("/__init__")] if rel.endswith("/__init__") else rel).split("/")
+    up = level - 1
+    if up >= len(parts) - 1:
+        return "above"
+    base = "/".join(parts[:len(parts) - up])
+    path = mod.replace(".", "/")
+    for cnd in (f"{base}/{path}/__init__.py", f"{base}/{path}.py"):
+        if cnd in files:
+            return ("file", cnd)
+    return "missing"
+
+
+PYS_ATTRS = ["x", "_y", "f"]            # MOD_SRC
+
+
+def _from_binds(tag, attrs, names):
+    """bindings of `from <module tag> import names` until the first missing attribute"""
+    out = []
+    for an, aas in names:
+        if an == "*":
+            out += [[k, "a", tag, k] for k in attrs if not k.startswith("_")]
+        elif an in attrs:
+            out.append([aas or an, "a", tag, an])
+        else:
+            return out, an
+    return out, None
+
+
+def _verdict_relative(p, o):
+    st = p["stmt"]
+    S = _S
+    files = set(_pys_map(p))
+    binds = o["binds"]
+    level = int(st[2])
+    if st[1] is None:
+        expect = []
+        for n, asn in st[3]:
+            r = _rel_expect(p["ctx"], level, n, files)
+            if r in ("noparent", "above"):
+                if o["exc"] != "ImportError" or binds != _as_dict(expect) or o["calls"]:
+                    return (f"relative-escape: {p['src']!r} in context {p['ctx']} ({r}) must raise ImportError and bind "
+                            f"nothing new, got {o['exc']} / {binds[:4]} / host imports {o['calls']}")
+                return None
+            if r == "missing":
+                if o["exc"] != "ModuleNotFoundError" or binds != _as_dict(expect) or o["calls"]:
+                    return (f"relative-missing-module: {p['src']!r} in {p['ctx']}: no such module below the package, expected "
+                            f"ModuleNotFoundError, got {o['exc']} / {binds[:4]} / host imports {o['calls']}")
+                return None
+            expect.append([asn or n, "m", "pys:" + r[1]])
+        if o["exc"] or binds != _as_dict(expect):
+            return f"relative-wrong-binding: {p['src']!r} in {p['ctx']} gave {o['exc']} / {binds[:4]}, expected {expect[:4]}"
+        return None
+    mod = st[1]
+    r = _rel_expect(p["ctx"], level, mod, files)
+    if r in ("noparent", "above"):
+        if o["exc"] != "ImportError" or binds or o["calls"]:
+            return (f"relative-escape: {p['src']!r} in context {p['ctx']} ({r}) must raise ImportError and bind nothing, "
+                    f"got {o['exc']} / {binds[:4]} / host imports {o['calls']}")
+        return None
+    if r == "missing":
+        permitted = mod in S["allowed"] or p["allow"]
+        if not permitted:
+            if o["exc"] != "ModuleNotFoundError" or binds or mod in o["calls"]:
+                return (f"relative-fallback-refused-name: {p['src']!r} in {p['ctx']}: nothing below the package and the bare "
+                        f"name {mod!r} is not importable, expected ModuleNotFoundError, got {o['exc']} / {binds[:4]} / {o['calls']}")
+            return None
+        if o["exc"] in ("ModuleNotFoundError", "ImportError") and not binds:
+            return None                                     # Python's answer
+        ok, m = host_expect(mod)                            # pyscript's fallback: the bare name as an absolute host import
+        if not ok:
+            return None if (o["exc"] == "ModuleNotFoundError" and not binds) else \
+                f"relative-fallback-wrong: {p['src']!r} gave {o['exc']} / {binds[:4]}"
+        exp, missing = _from_binds("host:" + mod, list(_dict(m).keys()), st[3])
+        if missing is not None:
+            if o["exc"] in ("AttributeError", "ImportError") and binds == _as_dict(exp):
+                return None
+            sub_ok = f"{mod}.{missing}" in S["subs"] or f"{mod}.{missing}" in S["exists"]
+            if sub_ok and o["exc"] is None:
+                return None
+            return f"relative-fallback-wrong: {p['src']!r} gave {o['exc']} / {binds[:4]} expected {exp[:4]} then a failure"
+        if o["exc"] or binds != _as_dict(exp):
+            return f"relative-fallback-wrong: {p['src']!r} gave {o['exc']} / {binds[:4]} expected {exp[:4]}"
+        return None
+    exp, missing = _from_binds("pys:" + r[1], PYS_ATTRS, st[3])
+    if missing is not None:
+        if o["exc"] not in ("AttributeError", "ImportError") or binds != _as_dict(exp):
+            return f"relative-wrong-binding: {p['src']!r} in {p['ctx']} gave {o['exc']} / {binds[:4]}, expected {exp[:4]} then a failure"
+        return None
+    if o["exc"] or binds != _as_dict(exp):
+        return f"relative-wrong-binding: {p['src']!r} in {p['ctx']} gave {o['exc']} / {binds[:4]}, expected {exp[:4]}"
+    return None
+
 
 
 def verdict(c):
     p = c.payload
     o = p.get("_obs")
     if o is None:
+        return None
+    if p["kind"] == "attrpath":
         return None
     if p["kind"] == "name":
         x = p["name"]
@@ -535,15 +854,12 @@ def verdict(c):
             return f"stubs-not-ignored: {p['src']!r} gave {o['exc']}, bound {binds}, imported {o['calls']}"
         return None
     if st[0] == "from" and (st[1] is None or st[2]):
-        # relative imports: only containment facts are part of the property
-        if p["ctx"] == "script" and (o["exc"] != "ImportError" or binds):
-            return f"relative-without-package: {p['src']!r} in a plain script gave {o['exc']} and bound {binds}"
-        return None
+        return _verdict_relative(p, o)
     mods = [(n, a) for n, a in st[1]] if st[0] == "import" else [(st[1], None)]
     expect_binds = []
     expect_exc = None
     for n, asn in mods:
-        vis = _pys_visible(n, p["ctx"])
+        vis = _pys_visible(n, p["ctx"], set(_pys_map(p)))
         permitted = bool(vis) or n in S["allowed"] or p["allow"]
         if not permitted:
             expect_exc = ("ModuleNotFoundError", f"refused:{n}")
@@ -638,7 +954,21 @@ def extra_coverage(cases):
             resolved[o.get("res")] = resolved.get(o.get("res"), 0) + 1
     names = {c.payload["stmt"][1][-1][0] if c.payload["stmt"][0] == "import" else c.payload["stmt"][1]
              for c in cases if c.payload["kind"] == "imp"}
-    return {"case_kinds": kinds, "import_outcomes": outcomes, "name_resolutions": resolved, "distinct_module_names": len(names)}
+    tags = {}
+    for c in cases:
+        if c.payload["kind"] == "imp":
+            for t in c.tags:
+                if t.startswith(("wrap:", "from-rel")) or t in CTXS or t == "stubfiles":
+                    tags[t] = tags.get(t, 0) + 1
+    modes = {}
+    for c in cases:
+        if c.payload["kind"] == "name":
+            modes[c.payload["mode"] + ("+allow_all" if c.payload.get("allow") else "")] = \
+                modes.get(c.payload["mode"] + ("+allow_all" if c.payload.get("allow") else ""), 0) + 1
+    attr = {c.payload["src"]: (c.payload.get("_obs") or {}).get("reaches_host_builtins") for c in cases
+            if c.payload["kind"] == "attrpath"}
+    return {"case_kinds": kinds, "import_outcomes": outcomes, "name_resolutions": resolved, "distinct_module_names": len(names),
+            "import_positions_contexts_levels": tags, "name_modes": modes, "attribute_paths": attr}
 
 
 import atexit  # noqa: E402
